@@ -16,6 +16,7 @@ import PsutilModel.Proofs.C17Mnt
 import PsutilModel.Proofs.C17Mac
 import PsutilModel.Proofs.C17Py
 import PsutilModel.Proofs.C17Shape
+import PsutilModel.Proofs.C17R3
 import PsutilModel.Model.C17Gen
 namespace Psutil.C17
 open Spec
@@ -1088,5 +1089,219 @@ example : netIfAddrs wcfg [⟨[101], 17, .str [48, 48, 58, 49, 49], .none, .none
        ([101], [⟨[101], 2, .str [50], .none, .none, .none⟩,
                 ⟨[101], 17, .str [48, 48, 58, 49, 49, 58, 48, 48, 58, 48, 48, 58, 48, 48, 58, 48, 48], .none, .none, .none⟩])] := by
   decide
+
+/-! ## round 3 (audit-driven) — failure path of getifaddrs() -/
+
+/-- **C17_ifaddrs_failure_defined** — with `ifaddr` initialised to NULL, `net_if_addrs()` is DEFINED for every answer of
+    getifaddrs(): a failure (any errno; libc storing NULL into `*ifap` or leaving it untouched — getifaddrs(3) promises
+    neither) is OSError(errno); a list honouring libc's object contract gives getifaddrs(3)'s rows with the kernel's
+    hardware text `aa:bb:…` (no model function inside the specification). -/
+theorem C17_ifaddrs_failure_defined (f : NFail) (hf : f.ifaddrInit = true) (c : NCfg) (hg : c.Good) (mac : MCfg) (hm : mac.Good)
+    (a : GiaAns) (h : ∀ es, a = .ok es → (∀ e ∈ es, EntryWF e) ∧ (∀ e ∈ es, EntryBytes e)) :
+    netIfAddrsC f c mac a = Spec.nifOutcome a := by
+  cases a with
+  | fail e st => simp [netIfAddrsC, Spec.nifOutcome, hf]
+  | ok es =>
+    obtain ⟨h1, h2⟩ := h es rfl
+    simp only [netIfAddrsC, Spec.nifOutcome, ifRows_hwText c hg mac hm es h1 h2]
+
+/-- **counterexample (finding C17-ifaddr-uninit, PENDING(fixes/C17-ifaddr-init.diff))** — with `struct ifaddrs *ifaddr;`
+    left uninitialised, a getifaddrs() that fails WITHOUT storing into `*ifap` (musl; allowed by getifaddrs(3)) makes the
+    error path call `freeifaddrs()` on an indeterminate pointer: undefined behaviour (SIGSEGV on the real extension)
+    where the specification says OSError(ENOMEM).  With glibc's store-NULL-first behaviour the same code is defined. -/
+theorem C17_ifaddrs_failure_uninit_counterexample :
+    netIfAddrsC { ifaddrInit := false } ncfg mcfg (.fail 12 false) = .ub
+    ∧ Spec.nifOutcome (.fail 12 false) = .osError 12
+    ∧ netIfAddrsC { ifaddrInit := false } ncfg mcfg (.fail 12 true) = .osError 12 := ⟨rfl, rfl, rfl⟩
+
+/-- translator obligation: the statement run when getifaddrs() fails sets OSError from errno and jumps to `error:`;
+    `freeifaddrs(ifaddr)` occurs exactly twice: unconditionally after the loop, and under `if (ifaddr != NULL)` on the
+    error path (a second free on a path, or an unguarded one, changes this list) -/
+theorem nif_cleanup_good : Gen.C17.nifCleanup =
+    ["if(getifaddrs(&ifaddr)==-1){PyErr_SetFromErrno(PyExc_OSError);gotoerror;}", "loop-exit:freeifaddrs(ifaddr);",
+     "error:if(ifaddr!=NULL)freeifaddrs(ifaddr);"] := by decide
+
+/- AFTER fixes/C17-ifaddr-init.diff has landed (fact nifIfaddrInit = true): uncomment, `./check C17 --rebaseline`.
+/-- translator obligation: `ifaddr` holds NULL when getifaddrs() is called -/
+theorem nfail_good : nfail.ifaddrInit = true := by decide
+
+theorem C17_ifaddrs_failure_defined_current (a : GiaAns)
+    (h : ∀ es, a = .ok es → (∀ e ∈ es, EntryWF e) ∧ (∀ e ∈ es, EntryBytes e)) :
+    netIfAddrsC nfail ncfg mcfg a = Spec.nifOutcome a :=
+  C17_ifaddrs_failure_defined nfail nfail_good ncfg ncfg_good mcfg mcfg_good a h
+-/
+
+/-- **C17_ifaddrs_rows_kernel_text** — `C17_ifaddrs_rows` composed with `C17_mac_text`: the rows of the CURRENT source equal
+    the specification written with the kernel's own hardware text (`Spec.hwText`: `aa:bb:…`, nothing for an empty address) -/
+theorem C17_ifaddrs_rows_kernel_text (es : List IfEntry) (h : ∀ e ∈ es, EntryWF e) (hb : ∀ e ∈ es, EntryBytes e) :
+    ifRows ncfg mcfg es = Spec.ifRows Spec.hwText es := ifRows_hwText ncfg ncfg_good mcfg mcfg_good es h hb
+
+/-- the instance of `C17_ifaddrs_reads_in_object` for the configuration extracted from the current source -/
+theorem C17_ifaddrs_reads_in_object_current (e : IfEntry) (hw : EntryWF e) : ∀ r ∈ ifReads ncfg e, r.1 ≤ r.2 :=
+  C17_ifaddrs_reads_in_object ncfg ncfg_good e hw
+
+/-- an Ethernet-style entry (AF_PACKET, 6-byte address in a 20-byte sockaddr_ll) -/
+def ethEntry : IfEntry :=
+  { name := [101], flags := 0x1043,
+    addr := some ⟨17, [17, 0, 0, 3, 2, 0, 0, 0, 1, 0, 0, 6, 0, 255, 16, 171, 205, 239, 0, 0], 0, none⟩,
+    netmask := none, ifu := some ⟨17, [17, 0, 0, 3, 2, 0, 0, 0, 1, 0, 0, 6, 255, 255, 255, 255, 255, 255, 0, 0], 0, none⟩ }
+
+/-- non-vacuity of `EntryWF` / `EntryBytes` (hypotheses of the rows and reads theorems): a link-level entry and a
+    loopback-style INET entry honour the contract -/
+theorem ethEntry_wf : EntryWF ethEntry ∧ EntryBytes ethEntry := by
+  constructor
+  · refine ⟨fun a ha => ?_⟩
+    have : a = ⟨17, [17, 0, 0, 3, 2, 0, 0, 0, 1, 0, 0, 6, 0, 255, 16, 171, 205, 239, 0, 0], 0, none⟩ := by
+      simp [ethEntry] at ha; exact ha.symm
+    subst this
+    refine ⟨⟨by decide, by decide, (by intro t ht; cases ht), by decide⟩, ?_, ?_⟩
+    · intro s hs; simp [ethEntry] at hs
+    · intro s hs
+      have : s = ⟨17, [17, 0, 0, 3, 2, 0, 0, 0, 1, 0, 0, 6, 255, 255, 255, 255, 255, 255, 0, 0], 0, none⟩ := by
+        simp [ethEntry] at hs; exact hs.symm
+      subst this
+      exact ⟨by decide, by decide, (by intro t ht; cases ht), by decide⟩
+  · intro o ho s hs b hb
+    simp only [ethEntry, List.mem_cons, List.not_mem_nil, or_false] at ho
+    rcases ho with rfl | rfl | rfl
+    · cases hs; revert b; decide
+    · cases hs
+    · cases hs; revert b; decide
+
+example : ifRows ncfg mcfg [ethEntry] =
+    [[.str [101], .int 17, .str (Spec.macText [0, 255, 16, 171, 205, 239]), .none, .str (Spec.macText [255, 255, 255, 255, 255, 255]), .none]] := by
+  decide
+
+/-! ## round 3 — inventories of the Linux build (audit item 2) -/
+
+/-- translator obligation (allow-list, like `parse_formats_good`): EVERY call of an unbounded or caller-bounded copy /
+    format function (`sprintf vsprintf strcpy stpcpy strcat strncat strncpy gets memcpy memmove alloca *scanf snprintf
+    readlink getcwd realpath …`) in the C files of the Linux build, preprocessor resolved for PSUTIL_LINUX, is one of:
+      * `strncpy(dst, …)` inside PSUTIL_STRNCPY — §3 `C17_strncpy_terminated`, sites pinned by `scfg_good.sites` / `qcfg_good`;
+      * `sprintf(ptr, "%02x:", …)` in psutil_convert_ipaddr — §4 `C17_mac_fits` / `C17_mac_text`;
+      * the three message helpers' `sprintf(msg|fullmsg, …)` — `C17_errmsg_fits` below;
+    and EVERY fixed-size char array is one of the four these theorems speak about.  A new site or buffer must be
+    justified here. -/
+theorem unsafe_sites_good :
+    Gen.C17.cUnsafeCalls =
+      [("#define PSUTIL_STRNCPY", "strncpy", "dst"), ("AccessDenied", "sprintf", "msg"), ("NoSuchProcess", "sprintf", "msg"),
+       ("psutil_PyErr_SetFromOSErrnoWithSyscall", "sprintf", "fullmsg"), ("psutil_convert_ipaddr", "sprintf", "ptr")]
+    ∧ Gen.C17.cCharBuffers =
+      [("AccessDenied", "msg", "1024"), ("NoSuchProcess", "msg", "1024"),
+       ("psutil_PyErr_SetFromOSErrnoWithSyscall", "fullmsg", "1024"), ("psutil_convert_ipaddr", "buf", "NI_MAXHOST")] := by
+  decide
+
+/-- translator obligation: each `sprintf` into a char local has only `%s` directives, as many arguments as directives,
+    each argument is `strerror(errno)` (at most `strerrorMaxLen` characters on the platform libc — measured) or the
+    `syscall` parameter (a string literal at every live call site — the longest is counted), and literal text + longest
+    arguments + NUL fit the array -/
+theorem errmsg_good :
+    Gen.C17.errMsgHelpers.all (helperFits Gen.C17.strerrorMaxLen (maxLitLen Gen.C17.errMsgSites)) = true
+    ∧ Gen.C17.errMsgSites.all siteOk = true ∧ Gen.C17.errMsgHelpers.length = 3 := by decide
+
+/-- **C17_errmsg_fits** — a `sprintf(buf, fmt, args…)` that passes the obligation stores, for EVERY argument texts within
+    their bounds (any errno's message, any of the literals), at most `sizeof buf` bytes including the terminating NUL. -/
+theorem C17_errmsg_fits (maxS maxL : Nat) (h : String × Nat × String × List String) (hf : helperFits maxS maxL h = true)
+    (ps : List Piece) (hp : parseFmt h.2.2.1.toList = some ps) (bs : List Nat) (hb : argBounds maxS maxL h.2.2.2 = some bs)
+    (args : List (List Char)) (ha : ArgsLe args bs) : (renderPieces ps args).length + 1 ≤ h.2.1 := by
+  unfold helperFits at hf
+  rw [hp, hb] at hf
+  simp only [Bool.and_eq_true, decide_eq_true_eq] at hf
+  have := render_le ps args bs ha
+  omega
+
+theorem C17_errmsg_fits_current (h : String × Nat × String × List String) (hm : h ∈ Gen.C17.errMsgHelpers)
+    (ps : List Piece) (hp : parseFmt h.2.2.1.toList = some ps) (bs : List Nat)
+    (hb : argBounds Gen.C17.strerrorMaxLen (maxLitLen Gen.C17.errMsgSites) h.2.2.2 = some bs)
+    (args : List (List Char)) (ha : ArgsLe args bs) : (renderPieces ps args).length + 1 ≤ h.2.1 :=
+  C17_errmsg_fits _ _ h (List.all_eq_true.1 errmsg_good.1 h hm) ps hp bs hb args ha
+
+/-- non-vacuity: the errno helper's format parses, and the longest message of the platform with the longest literal fits -/
+example : parseFmt "%s (originated from %s)".toList = some [.str, .lit " (originated from ".toList, .str, .lit [')']]
+    ∧ argBounds 49 19 ["strerror(errno)", "syscall"] = some [49, 19]
+    ∧ boundPieces [.str, .lit " (originated from ".toList, .str, .lit [')']] [49, 19] + 1 = 88 := by decide
+
+/-- a 64-byte buffer (audit: "realistic edit that would not be noticed") fails the obligation: 49 + 19 + 19 + 1 > 64 -/
+theorem C17_errmsg_small_buffer_counterexample :
+    helperFits 49 19 ("psutil_PyErr_SetFromOSErrnoWithSyscall", 64, "%s (originated from %s)", ["strerror(errno)", "syscall"]) = false
+    ∧ (renderPieces [.str, .lit " (originated from ".toList, .str, .lit [')']]
+        ["Attempting to link in too many shared libraries".toList, "ioctl(SIOCGIFFLAGS)".toList]).length + 1 = 86 := by decide
+
+/-! ## round 3 — guards and plumbing the theorems above rely on, pinned as source text (audit items 5, 6) -/
+
+set_option maxRecDepth 100000 in
+/-- translator obligation: in psutil_convert_ipaddr the link-level text is produced under `if (len > 0)` (only `ptr = buf;`
+    between the test and the loop — `C17_mac_fits`' "`--ptr` stays inside `buf`" presupposes it), by
+    `for (n = 0; n < len; ++n)` (reads `data[0..len)`: `C17_ifaddrs_reads_in_object`), followed by `*--ptr = '\0'`;
+    a failing getnameinfo() gives None; net_if_duplex_speed maps SPEED_UNKNOWN and anything above INT_MAX to 0
+    (`C17_ethspeed_defined`); users.c hands the start time as `(double)ut->ut_tv.tv_sec` to unit `d` and the pid to the
+    pid unit -/
+theorem guards_good :
+    Gen.C17.macLoopShape = ["len>0", "n=0", "n<len", "++n", "*--ptr='\\0'"]
+    ∧ Gen.C17.gniErrTest = "err!=0?Py_INCREF(Py_None);returnPy_None;:returnPy_BuildValue(\"s\",buf);"
+    ∧ Gen.C17.ethSpeedTest = "uint_speed==(__u32)SPEED_UNKNOWN||uint_speed>INT_MAX?speed=0;:speed=(int)uint_speed;"
+    ∧ Gen.C17.usersStartSlot = "\"OOOd\"_Py_PARSE_PID|(double)ut->ut_tv.tv_sec|ut->ut_pid" := by decide
+
+set_option maxRecDepth 100000 in
+/-- translator obligation: `_pslinux.disk_partitions` strips each /proc/filesystems line first, reads
+    `/etc/mtab` (resolved) only when the procfs path is "/proc" and that file exists, else `<procfs>/self/mounts`, hands
+    that path to cext.disk_partitions, iterates over its result, unpacks (device, mountpoint, fstype, opts) and passes
+    them to sdiskpart in that order -/
+theorem partitions_plumbing_good :
+    Gen.C17.fsLineStrip = "line = line.strip()"
+    ∧ Gen.C17.mountsPathLogic = "if procfs_path == '/proc' and os.path.isfile('/etc/mtab'): ;     mounts_path = os.path.realpath('/etc/mtab') ; else: ;     mounts_path = os.path.realpath(f'{procfs_path}/self/mounts')"
+    ∧ Gen.C17.partCextArg = "partitions=cext.disk_partitions(mounts_path)|partitions"
+    ∧ Gen.C17.partUnpack = ["device", "mountpoint", "fstype", "opts"]
+    ∧ Gen.C17.sdiskpartArgs = ["device", "mountpoint", "fstype", "opts"] := by decide
+
+/-! ## round 3 — disk_partitions() over whole files (audit item 3) -/
+
+/-- **C17_mounts_file_entries** — for EVERY mounts file made of mount entries as the kernel prints them (four non-empty
+    fields of any bytes, escapes included), comment lines and blank lines, in any order and number, each line within
+    4095 bytes, with or without a final newline: `cext.disk_partitions()` returns exactly the entries, in order. -/
+theorem C17_mounts_file_entries (c : DCfg) (hg : c.Good) (ls : List MLine) (h : ∀ l ∈ ls, MLineOk l) (lastTerm : Bool) :
+    diskPartitionsC c (ls.map renderMLine) lastTerm = (entriesOf ls).map (fun m => [m.dev, m.dir, m.typ, m.opts]) :=
+  diskPartitionsC_lines c hg ls h lastTerm
+
+/-- **C17_disk_partitions_end_to_end** — text to rows: /proc/filesystems as the kernel prints it (any registered types)
+    and any such mounts file give, through the Python parser, the C loop, the 4-tuple unpack and the filter, exactly the
+    specified rows: each entry's device (`none` → '', root aliases resolved), mount point, type, options; with
+    `all=False` only those with a device and a disk-backed type. -/
+theorem C17_disk_partitions_end_to_end (p : PCfg) (hp : p.Good) (d : DCfg) (hd : d.Good) (all : Bool) (fs : List FsEntry)
+    (hfs : ∀ e ∈ fs, e.WF) (ls : List MLine) (hls : ∀ l ∈ ls, MLineOk l) (lastTerm : Bool) (root : Option Bytes) :
+    diskPartitionsPy p d all (renderFsText fs) (ls.map renderMLine) lastTerm root
+      = .rows (Spec.partitions all (diskFs fs) root (entriesOf ls)) := by
+  unfold diskPartitionsPy
+  rw [diskPartitionsC_lines d hd ls hls lastTerm, mntsOfTuples_map]
+  cases all with
+  | true =>
+    simp only [if_true]
+    have e : C17.partitions p true [] root (entriesOf ls) = C17.partitions p true (diskFs fs) root (entriesOf ls) := by
+      simp [C17.partitions]
+    rw [e, C17_partitions_filter p hp true (diskFs fs) (diskFs fs) (fun _ => Iff.rfl) root]
+  | false =>
+    have hl : linesOf (renderFsText fs) = fs.map renderFsLine := by
+      unfold renderFsText
+      apply Psutil.C09.linesOf_unlines
+      intro l hl
+      obtain ⟨e, he, rfl⟩ := List.mem_map.1 hl
+      exact renderFsLine_noNl e (hfs e he)
+    simp only [Bool.false_eq_true, if_false, parseFilesystems, hl, C17_filesystems_parse p hp fs hfs]
+    rw [C17_partitions_filter p hp false (diskFs fs) (diskFs fs) (fun _ => Iff.rfl) root]
+
+theorem C17_disk_partitions_end_to_end_current (all : Bool) (fs : List FsEntry) (hfs : ∀ e ∈ fs, e.WF) (ls : List MLine)
+    (hls : ∀ l ∈ ls, MLineOk l) (lastTerm : Bool) (root : Option Bytes) :
+    diskPartitionsPy pcfg dcfg all (renderFsText fs) (ls.map renderMLine) lastTerm root
+      = .rows (Spec.partitions all (diskFs fs) root (entriesOf ls)) :=
+  C17_disk_partitions_end_to_end pcfg pcfg_good dcfg dcfg_good all fs hfs ls hls lastTerm root
+
+/-- non-vacuity: a file with a comment, an entry with an escaped space, a blank line and a `none` device of a disk type -/
+example :
+    diskPartitionsPy pcfg dcfg false (renderFsText [⟨true, [112, 114, 111, 99]⟩, ⟨false, [101, 120, 116, 52]⟩])
+      ([MLine.comment [32] [120], .entry ⟨[47, 100, 32, 97], [47], [101, 120, 116, 52], [114, 119]⟩, .blank [32, 9],
+        .entry ⟨[110, 111, 110, 101], [47, 109], [101, 120, 116, 52], [114, 111]⟩,
+        .entry ⟨[112], [47, 112], [112, 114, 111, 99], [114, 119]⟩].map renderMLine) false none
+      = .rows [⟨[47, 100, 32, 97], [47], [101, 120, 116, 52], [114, 119]⟩] := by decide
+
 
 end Psutil.C17
